@@ -124,6 +124,16 @@ func (eng *Engine) resolveTargets(cfg *PropConfig) ([]targetFn, []string) {
 	return out, errs
 }
 
+func (eng *Engine) sortedContractKeys() []string {
+	if eng.ctKeys == nil {
+		for k := range eng.contracts {
+			eng.ctKeys = append(eng.ctKeys, k)
+		}
+		sort.Strings(eng.ctKeys)
+	}
+	return eng.ctKeys
+}
+
 func (eng *Engine) sortedKeys() []string {
 	if eng.keys == nil {
 		for k := range eng.fnByKey {
